@@ -50,6 +50,23 @@ def make_cases(ctx, n):
         big = ctx.rng.random() < 0.15
         sizes = gen.SIZES + ([64, 65, 100, 128, 129] if big else [])
         tree = gen.rand_tree(ctx.rng, depth=ctx.rng.choice([1, 2, 3, 3, 4]), fanout=ctx.rng.choice([3, 4, 5]), sizes=sizes)
+        if t % 4 == 1:
+            # sibling directories D and D<c>... with c sorting below '/': the order in which restore meets them (path order:
+            # D's whole subtree before D<c>) and the string order of their paths disagree; all of them hold something, and
+            # all have old modification times that restore must put back AFTER filling them
+            def f_(d, m):
+                return {"k": "f", "data": d.hex(), "mode": 0o644, "mtime": 10**18 + m}
+
+            def d_(c, m):
+                return {"k": "d", "mode": ctx.rng.choice([0o755, 0o700, 0o2775]), "mtime": 9 * 10**17 + m, "c": c}
+            base = ctx.rng.choice(["data", "a", "ñ", "proj"])
+            host = tree
+            subs = [v for v in tree["c"].values() if v["k"] == "d"]
+            if subs and ctx.rng.random() < 0.4:
+                host = ctx.rng.choice(subs)
+            host["c"][base] = d_({"sub": d_({"deep": f_(b"deep", 1), "deeper": d_({"x": f_(b"x", 2)}, 3)}, 4), "top": f_(b"top", 5)}, 6)
+            for k_, suf in enumerate(ctx.rng.sample(["-old", ".b", " 2", "(1)", ",v", "+", "!"], 3)):
+                host["c"][base + suf] = d_({"inside": f_(b"in", 7), "more": d_({"y": f_(b"y", 8)}, 9)}, 10 + k_)
         opts = gen.rand_opts(ctx.rng)
         steps = [{"op": "init"}]
         band = 0
